@@ -40,7 +40,7 @@ for commit, props in todo.items():
         print("REVERT DOES NOT APPLY %s: %s" % (commit, r.stderr.strip()[:200]))
         bad += 1
         continue
-    out = run(["/verif/check"] + sorted(props), env=env, cwd="/verif").stdout
+    out = run([os.environ.get("PGCHECK_BIN", "/verif/check")] + sorted(props), env=env, cwd="/verif").stdout
     for p in sorted(props):
         fired = [l.split()[0] for l in out.splitlines() if l.startswith(p + ".")]
         known = [l for l in out.splitlines() if l.startswith("KNOWN-FINDING") and ("property=%s " % p) in l]
